@@ -287,4 +287,19 @@ PROPS = {
                 "containing a drop after a register, two owners for one method, or a re-registration; distinct = the operation sequence.",
         "assumptions": ["stale routes of fully dropped methods may answer Unimplemented or NotFound"],
     },
+    "C12": {
+        "pkg": "c12",
+        "stages": [{"run": "^TestPropSnapshots$", "quick": (250, 4), "thorough": (4000, 16), "timeout": {"quick": 900, "thorough": 5400}},
+                   {"run": "^TestPropStress$", "quick": (12, 4), "thorough": (120, 16), "race": True, "timeout": {"quick": 900, "thorough": 5400}}],
+        "replay_race": True,
+        "technique": "property-based testing (rapid): (a) generated writer histories with a snapshot-immutability monitor over hook-exposed fingerprints (deterministic, no threads); (b) seeded concurrent stress plans under the Go race detector with a visibility oracle",
+        "level_text": "(a) Histories of successful registrations, registrations that fail on their LAST method, RegisterConn and DropConn: every snapshot ever published must keep its deep structural "
+                      "fingerprint after all later operations (published states are never mutated in place), and a failed operation must publish nothing and change no probe. (b) Reader goroutines on "
+                      "HTTP/gRPC/gRPC-web hammer a pre-registered method, all methods of a service being registered (absent or fully served, jointly and monotonically), a failing registration (never "
+                      "observable) and conn-backed methods while writers run drawn operation lists with drawn yield jitter, under -race. Exploration; (b) samples schedules chosen by the Go scheduler.",
+        "level_note": "(a) quantifies over histories and is what a torn read would need; together with the code fact that a request loads the snapshot pointer once it carries most of the weight. (b) cannot enumerate interleavings; a race report is a violation whose replay file is the log.",
+        "rule": "TestPropSnapshots: 2-10 operations from {local, multi-ok, multi-bad (fails on last method), conn/drop B1..B3, alter B3}; non-trivial = >=1 failing operation and >=2 snapshots. "
+                "TestPropStress: 2-12 readers x 20-80 request rounds (4 probes each, 3 protocols), writer op lists and jitter drawn; non-trivial = at least one request overlapped a writer operation (counted).",
+        "assumptions": ["conn-backed methods may answer 200, 404 or 501 while their connection is being registered or dropped"],
+    },
 }
